@@ -223,7 +223,9 @@ def check_system(label, term, spec, res, tier, excs=EXCS, do_b=True):
         for kind, name in callables(term):
             if kind not in ("body", "fn", "effect", "pred"):
                 continue
-            for when in (1, 2):
+            # effects receive the dataset's value (never 1 or 2): make them raise always, so that a failed
+            # evaluation is followed by evaluations of every dictionary on the same long-lived graph
+            for when in ((None,) if kind == "effect" else (1, 2)):
                 one_script({(kind, name): ("ValueError", when)}, pairs=True)
                 res["scripts"] += 1
     return fails
